@@ -739,6 +739,8 @@ def iter_rules(prog, R):
             bad = []
             for (kind, what) in srcs:
                 if kind == 'inner':
+                    if what not in inner_fields:
+                        bad.append('length of field `%s`, which is not the wrapped iterator' % what)
                     continue
                 if kind == 'field':
                     # a stored length: must be written by next()/next_back()
